@@ -6,6 +6,9 @@ import (
 	"hash/fnv"
 	"regexp"
 	"sort"
+	"strings"
+	"testing"
+	"testing/synctest"
 	"time"
 )
 
@@ -56,6 +59,34 @@ type Ctx struct {
 	once      map[string]bool
 	unordered []string
 	PreLog    []func() // run before every ordered log line: worlds emit pending net effects through LogUnordered
+	T         *testing.T
+}
+
+// Bubble runs fn inside a synctest bubble of its own (fake clock, quiescence
+// detection): for campaigns of a world that otherwise needs none. A violation or
+// harness error raised inside is raised again outside.
+func (c *Ctx) Bubble(fn func()) {
+	var pv any
+	func() {
+		defer func() {
+			if r := recover(); r != nil {
+				msg := fmt.Sprint(r)
+				if strings.Contains(msg, "main bubble goroutine has exited") {
+					return
+				}
+				if pv == nil {
+					pv = &HarnessError{Msg: "bubble: " + msg}
+				}
+			}
+		}()
+		synctest.Test(c.T, func(*testing.T) {
+			defer func() { pv = recover() }()
+			fn()
+		})
+	}()
+	if pv != nil {
+		panic(pv)
+	}
 }
 
 func newCtx(prop string, tape *Tape, trace bool, known []KnownFinding) *Ctx {
